@@ -14,8 +14,11 @@ EXTENDS Pools, Json, IOUtils
 
 Trace == ndJsonDeserialize(IOEnv.TRACE)
 
-VARIABLES l, pending, kept, keptMap
-tvars == <<mvars, l, pending, kept, keptMap>>
+VARIABLES l, pending, kept, keptMap, ep
+tvars == <<mvars, l, pending, kept, keptMap, ep>>
+\* kept[c] remembers descriptor and epoch of the call in one number
+EPBASE == 100000
+Code(d, e) == d + EPBASE * e
 Empty == [x \in {} |-> 0]
 Drop(f, c) == [x \in DOMAIN f \ {c} |-> f[x]]
 \* kept is hashed into NB buckets: an update rebuilds one small bucket instead of a function over thousands of calls
@@ -29,17 +32,25 @@ KDel(k, c) == [k EXCEPT ![c % NB] = Drop(@, c)]
 \* (RetOK), so remembering d remembers the clauses: kept[c] = d.  Only a Map call (compared as a bag) needs its own
 \* clause order: keptMap[c].  (Thousands of calls are remembered at a time; small entries keep the states small.)
 IsMap(di) == Universe[di].car = "map"
-HandedOut(c) == IF c \in DOMAIN keptMap THEN keptMap[c] ELSE ExpTable[kept[c % NB][c]]
+HandedOut(c) == IF c \in DOMAIN keptMap THEN keptMap[c]
+                ELSE LET v == kept[c % NB][c] IN ExpTableAt[v \div EPBASE][v % EPBASE]
 
 ASSUME TLCSet(1, 0)
 
-TraceInit == /\ MQuiet /\ l = 1 /\ pending = Empty /\ kept = NoneKept /\ keptMap = Empty
+TraceInit == /\ MQuiet /\ l = 1 /\ pending = Empty /\ kept = NoneKept /\ keptMap = Empty /\ ep = 0
 
 IsEv(name) == l <= Len(Trace) /\ Trace[l].e = name
 
 TReset == /\ IsEv("reset")
           /\ pending' = Empty /\ kept' = NoneKept /\ keptMap' = Empty
-          /\ l' = l + 1 /\ UNCHANGED mvars
+          /\ l' = l + 1 /\ UNCHANGED <<mvars, ep>>
+
+\* the harness registered a global function between two calls (nothing is pending): the next epoch of Pools!GlobAt
+TEpoch == /\ IsEv("epoch")
+          /\ pending = Empty
+          /\ Trace[l].c = ep + 1 /\ Trace[l].c \in Epochs
+          /\ ep' = Trace[l].c
+          /\ l' = l + 1 /\ UNCHANGED <<mvars, pending, kept, keptMap>>
 
 TCall == /\ IsEv("call")
          /\ LET ev == Trace[l] IN
@@ -47,16 +58,16 @@ TCall == /\ IsEv("call")
             /\ ev.d \in 1..NDesc
             /\ Universe[ev.d].key = ev.key                 \* harness and spec talk about the same descriptor
             /\ pending' = pending @@ (ev.c :> ev.d)
-         /\ l' = l + 1 /\ UNCHANGED <<mvars, kept, keptMap>>
+         /\ l' = l + 1 /\ UNCHANGED <<mvars, kept, keptMap, ep>>
 
 TRet == /\ IsEv("ret")
         /\ LET ev == Trace[l] IN
            /\ ev.c \in DOMAIN pending
-           /\ RetOK(pending[ev.c], ev.clauses, ev.inputSame, ev.rmSame)
+           /\ RetOKAt(pending[ev.c], ev.clauses, ev.inputSame, ev.rmSame, ep)
            /\ pending' = Drop(pending, ev.c)
-           /\ kept' = IF ev.keep THEN KPut(kept, ev.c, pending[ev.c]) ELSE kept
-           /\ keptMap' = IF ev.keep /\ IsMap(pending[ev.c]) THEN keptMap @@ (ev.c :> ev.clauses) ELSE keptMap
-        /\ l' = l + 1 /\ UNCHANGED mvars
+           /\ kept' = IF ev.keep THEN KPut(kept, ev.c, Code(pending[ev.c], ep)) ELSE kept
+           /\ keptMap' = IF ev.keep /\ (IsMap(pending[ev.c]) \/ IsFree(pending[ev.c])) THEN keptMap @@ (ev.c :> ev.clauses) ELSE keptMap
+        /\ l' = l + 1 /\ UNCHANGED <<mvars, ep>>
 
 TRecheck == /\ IsEv("recheck")
             /\ LET ev == Trace[l] IN
@@ -64,9 +75,9 @@ TRecheck == /\ IsEv("recheck")
                /\ RecheckOK(HandedOut(ev.c), ev.clauses, ev.same)
                /\ kept' = KDel(kept, ev.c)
                /\ keptMap' = IF ev.c \in DOMAIN keptMap THEN Drop(keptMap, ev.c) ELSE keptMap
-            /\ l' = l + 1 /\ UNCHANGED <<mvars, pending>>
+            /\ l' = l + 1 /\ UNCHANGED <<mvars, pending, ep>>
 
-TraceNext == TReset \/ TCall \/ TRet \/ TRecheck
+TraceNext == TReset \/ TEpoch \/ TCall \/ TRet \/ TRecheck
 TraceSpec == TraceInit /\ [][TraceNext]_tvars
 
 HW == TLCSet(1, IF l > TLCGet(1) THEN l ELSE TLCGet(1))
